@@ -245,6 +245,53 @@ def concurrent_head_change(twin: bool = False, real: bool = False):
     return check_concurrent, {"v0": 10, "ov": 5}
 
 
+def resubmission(twin: bool = False, real: bool = False):
+    """History: a transaction is submitted, the head changes, the SAME transaction is submitted again. Whatever the node
+    remembers about the first submission, admission the second time is judged at the head of that moment."""
+    W, ns = _setup(real)
+    dt = W.dt
+
+    def check_resubmission(v0: int, ov: int, scenario: int) -> bool:
+        """
+        post: _
+        """
+        if not (3 <= v0 <= 10 ** 15 and 1 <= ov <= 10 ** 15 and 0 <= scenario <= 1):
+            return True
+        if ov > v0 - 1:
+            return True
+        if not real:
+            W._install_crypto()
+        pv = [v0, 6, 7, 8]
+        state = W.state(pv)
+        lp = ns.make_node()
+        cm = lp.chain_manager
+        cm.coinstate = state
+        cm.transaction_pool = []
+        T = W.make_tx(tok(TX, 42), [(0, 0, 0)], [(ov, 1)], pv, tok(TX, 99), None)
+        T2 = W.make_tx(tok(TX, 43), [(0, 0, 0)], [(ov, 2)], pv, tok(TX, 99), None)      # conflicts with T
+        cb = W.env.coinbase(W.h, [dt.Output(1, W.keys[3])], tok(TX, 20))
+        try:
+            if scenario == 0:
+                # T admitted, T mined (evicted), T submitted again: an already-mined transaction
+                if not cm.add_transaction_to_pool(T):
+                    return False
+                cm.set_coinstate(state.add_block_no_validation(W.candidate(state, [cb, T], 3000)))
+                again = cm.add_transaction_to_pool(T)
+            else:
+                # T admitted, conflicting T2 refused, T mined, T2 submitted again: a double spend of a mined output
+                if not cm.add_transaction_to_pool(T) or cm.add_transaction_to_pool(T2):
+                    return False
+                cm.set_coinstate(state.add_block_no_validation(W.candidate(state, [cb, T], 3000)))
+                again = cm.add_transaction_to_pool(T2)
+        except Exception:
+            return False
+        if twin:
+            return False
+        return (not again) and len(cm.transaction_pool) == 0
+
+    return check_resubmission, {"v0": 10, "ov": 5, "scenario": 0}
+
+
 def relay(twin: bool = False, real: bool = False):
     W, ns = _setup(real)
     import skepticoin.networking.messages as ms
@@ -299,6 +346,7 @@ def obligations(tier: str, known: List[str]) -> List[Ob]:
         obs.append(Ob("head-change[%s]" % nm, C_EVICT + "; " + C_INV, "head_change", {"change": ch}, timeout=T))
     obs.append(twin_of(obs[-2], timeout=300))
     obs.append(Ob("head-change-during-submission", C_INV, "concurrent_head_change", {}, timeout=T))
+    obs.append(Ob("resubmission-after-head-change", C_ADM, "resubmission", {}, timeout=T))
     obs.append(Ob("relay-once", C_RELAY, "relay", {}, timeout=T))
     obs.append(twin_of(obs[-1], timeout=300))
     return obs
